@@ -154,7 +154,7 @@ def _generate(seed, index, tier):
             case["s"] = frag[:k]
             case["faults"].append({"kind": "truncate", "at": k, "of": len(frag)})
         return case
-    if st == 13 and (index // 16) % 4 == 0:
+    if st == 13 and (index // 16) % 16 == 0:
         # very long input: a block of commands (each block begins with a move) repeated
         block = gp.gen_cmds(ch, ch.int(2, 5), mag=ch.choice(gp.MAGS))
         reps_max = 4000 if tier == "thorough" else 600
